@@ -27,5 +27,8 @@ P_ReadBack       == /\ R.read.ok
 \* the reader returns what the specification's reader returns for the tokens that are really in the file
 \* the path-based writer of the cell-data file (default arguments, cells as they are) yields a file that reads back identically
 P_PathWriter     == R.read.ok => R.read.path_same
+\* the file written with compaction switched off (every node slot listed, a cell's faces referencing a non-contiguous subset of its
+\* points) is read back as the same tissue as the compacted file
+P_NoRebaseWriter == R.read.ok => R.read.norebase_same
 P_ReaderIsRead   == (F.parsed /\ R.read.ok) => R.read.cells = Read(F)
 =============================================================================
